@@ -618,7 +618,7 @@ Proof.
       subst b. constructor.
       * exact (i_start _ _ _ _ _ _ I).
       * exact (i_val _ _ _ _ _ _ I).
-      * intros k Nk. unfold orc, odl, orv. rewrite accts_set. replace (k =? a) with false by lia.
+      * intros k Nk. unfold orc, odl, orv. rewrite accts_set. rewrite (proj2 (Z.eqb_neq k a) Nk).
         exact (i_others _ _ _ _ _ _ I k Nk).
       * intros HK. unfold odl. rewrite accts_set, Z.eqb_refl. rewrite G3. subst K. cbn.
         pose proof (i_liq _ _ _ _ _ _ I eq_refl) as Y. unfold odl in Y. rewrite EA in Y. exact Y.
@@ -758,16 +758,16 @@ Proof.
     + left. apply Keep. exact (clean_rquiet _ _ C (quiet_r _ _ Q)).
     + right. apply h_start_ok in Hs as (V & A & A' & EA & -> & G0 & F1 & F2 & F3 & G1 & G2 & G3 & G4 & G5 & G6 & G7 & SC & _).
       exists K, b, (a_cache A'), A. split; [|split; [exact EA | split; [exact F1 | exact SC]]].
-      split; [lia|]. split.
+      split; [clear - Hn; lia|]. split.
       * constructor.
         -- exists (t_d t). repeat split; auto.
         -- exact V.
-        -- intros k Nk. unfold orc, odl, orv. rewrite accts_set. replace (k =? b) with false by lia. exact (C k).
+        -- intros k Nk. unfold orc, odl, orv. rewrite accts_set. rewrite (proj2 (Z.eqb_neq k b) Nk). exact (C k).
         -- intros ->. unfold odl. rewrite accts_set, Z.eqb_refl. rewrite G3. cbn.
            destruct (C b) as (_ & C2 & _). unfold odl in C2. rewrite EA in C2. exact C2.
         -- intros _. unfold ocache. rewrite accts_set, Z.eqb_refl. reflexivity.
         -- unfold orc. rewrite accts_set, Z.eqb_refl. rewrite G1. discriminate.
-      * intros Hl. apply validate_instructions_spec in V as (_ & _ & _ & _ & _ & _ & V). lia.
+      * intros Hl. apply validate_instructions_spec in V as (_ & _ & _ & _ & _ & _ & V). clear - Hl V. lia.
     + exfalso. apply h_end_ok in He as (_ & A & A' & EA & _ & F1 & _).
       destruct (C b) as (C1 & _). unfold orc in C1. rewrite EA in C1. congruence.
     + left. apply Keep. apply h_start_fl_ok in Hs as (A & EA & _ & _ & ->).
@@ -1179,7 +1179,7 @@ Theorem start_facts K ixes cur cpi (w : world) a recv w' :
 Proof.
   intros H. apply h_start_ok in H as (V & A & A' & EA & -> & G0 & F1 & F2 & F3 & G1 & G2 & G3 & G4 & G5 & G6 & G7 & SC & HD).
   split; [exact V|]. exists A. unfold ocache, orc, orv. rewrite accts_set, Z.eqb_refl.
-  repeat split; auto; try apply SC. intros k N. rewrite accts_set. replace (k =? a) with false by lia. reflexivity.
+  repeat split; auto; try apply SC. intros k N. rewrite accts_set. rewrite (proj2 (Z.eqb_neq k a) N). reflexivity.
 Qed.
 
 Theorem end_facts K cpi (w : world) a s w' :
@@ -1194,7 +1194,7 @@ Proof.
   split; [reflexivity|]. exists A. unfold orc, orv, odl. rewrite accts_set, Z.eqb_refl.
   repeat split; auto.
   - intros ->. rewrite G3. reflexivity.
-  - intros k N. rewrite accts_set. replace (k =? a) with false by lia. reflexivity.
+  - intros k N. rewrite accts_set. rewrite (proj2 (Z.eqb_neq k a) N). reflexivity.
 Qed.
 
 Theorem end_fl_facts cpi (w : world) a auth w' :
